@@ -152,23 +152,25 @@ def dropBytes : List (List Nat) → Nat → List (List Nat)
     else if k < b.length then b.drop k :: rest
     else dropBytes rest (k - b.length)
 
+/-- Number of bytes the source still holds. -/
+def srcLen (src : List (List Nat)) : Nat := src.flatten.length
+
 /-- `client_skip_proxy` with a skip callback: loop over the skipper's answers.
-Returns the total (negative = error) and the state with the skipped bytes
-removed from the source. -/
-def skipLoop : Nat → State → Nat → Int → Int × State
-  | 0, s, _, total => (total, s)
-  | fuel + 1, s, request, total =>
-    match s.skips with
-    | [] => (total, s)                       -- answer 0
-    | get :: rest =>
-      let s := { s with skips := rest }
-      if get < 0 then (get, s)              -- `if (get < 0) return (get);`
-      else
-        let g := get.toNat
-        let s := { s with src := dropBytes s.src g }
-        if g = 0 ∨ g = request then (total + get, s)
-        else if g > request then (-30, s)
-        else skipLoop fuel s (request - g) (total + get)
+A script entry `g ≥ 0` is a well-behaved skipper willing to skip up to `g` bytes:
+it answers `min g request` (and never more than the source holds); `-999` is a
+misbehaving skipper that answers more than it was asked; any other negative
+entry is an error code.  An exhausted script answers 0.  Returns the total
+(negative = error) and the state with the skipped bytes removed from the source. -/
+def skipLoop (s : State) (request : Nat) (total : Nat) : List Int → Int × State
+  | [] => (total, { s with skips := [] })
+  | get :: rest =>
+    if get = -999 then (-30, { s with skips := rest })       -- `if (get > request) return ARCHIVE_FATAL;`
+    else if get < 0 then (get, { s with skips := rest })     -- `if (get < 0) return (get);`
+    else
+      let g := Nat.min (Nat.min get.toNat request) (srcLen s.src)
+      let s' := { s with src := dropBytes s.src g }
+      if g = 0 ∨ g = request then (total + g, { s' with skips := rest })
+      else skipLoop s' (request - g) (total + g) rest
 
 /-- The "Use ordinary reads as necessary" loop of `advance_file_pointer`.
 Returns total skipped so far or a negative error. -/
@@ -189,29 +191,30 @@ def readSkipLoop (s : State) (request : Nat) (total : Nat) : Int × State :=
 termination_by s.src.length
 decreasing_by simp_wf; simp [hs]
 
+/-- "Use up the copy buffer first. Then use up the client buffer."  Returns the
+new state and the number of bytes taken from the two buffers. -/
+def useBuffers (s : State) (request : Nat) : State × Nat :=
+  let m1 := Nat.min request s.cb.length
+  let s1 := { s with next := s.next + m1, cb := s.cb.drop m1, position := s.position + m1 }
+  let m2 := Nat.min (request - m1) s1.cavail
+  ({ s1 with cnext := s1.cnext + m2, cavail := s1.cavail - m2, position := s1.position + m2 }, m1 + m2)
+
 /-- `advance_file_pointer(filter, request)` for `request > 0`. -/
 def advance (s : State) (request : Nat) : Int × State :=
   if s.fatal then (-1, s) else
-  -- Use up the copy buffer first.
-  let m1 := Nat.min request s.cb.length
-  let s := { s with next := s.next + m1, cb := s.cb.drop m1, position := s.position + m1 }
-  let request := request - m1
-  -- Then use up the client buffer.
-  let m2 := Nat.min request s.cavail
-  let s := { s with cnext := s.cnext + m2, cavail := s.cavail - m2, position := s.position + m2 }
-  let request := request - m2
-  let total := m1 + m2
-  if request = 0 then (total, s) else
+  let (s2, total) := useBuffers s request
+  let request := request - total
+  if request = 0 then (total, s2) else
   -- If there's an optimized skip function, use it.
-  let (r, s) : Int × State :=
-    if s.canSkip then skipLoop (request + 1) s request 0 else (0, s)
-  if r < 0 then (r, { s with fatal := true }) else
+  let (r, s3) : Int × State :=
+    if s2.canSkip then skipLoop s2 request 0 s2.skips else (0, s2)
+  if r < 0 then (r, { s3 with fatal := true }) else
   let k := r.toNat
-  let s := { s with position := s.position + k }
+  let s4 := { s3 with position := s3.position + k }
   let total := total + k
   let request := request - k
-  if request = 0 then (total, s) else
-  readSkipLoop s request total
+  if request = 0 then (total, s4) else
+  readSkipLoop s4 request total
 
 /-- `__archive_read_filter_consume(filter, request)`: the amount consumed, or
 `ARCHIVE_FATAL` (-30). -/
